@@ -278,6 +278,13 @@ class AugmentedGraph(ADMG, AugmentedNodeMixin):
             del self.graph["S-nodes"][n]
         return super().remove_node(n)
 
+    def remove_nodes_from(self, nodes):
+        nodes = list(nodes)
+        for n in nodes:
+            self.graph["F-nodes"].pop(n, None)
+            self.graph["S-nodes"].pop(n, None)
+        return super().remove_nodes_from(nodes)
+
 
 class AugmentedPAG(PAG, AugmentedNodeMixin):
     """An augmented PAG.
@@ -385,3 +392,10 @@ class AugmentedPAG(PAG, AugmentedNodeMixin):
         if n in self.s_nodes:
             del self.graph["S-nodes"][n]
         return super().remove_node(n)
+
+    def remove_nodes_from(self, nodes):
+        nodes = list(nodes)
+        for n in nodes:
+            self.graph["F-nodes"].pop(n, None)
+            self.graph["S-nodes"].pop(n, None)
+        return super().remove_nodes_from(nodes)
